@@ -75,8 +75,8 @@ def explore(ch, params, out):
     if ir_sym is not None:
         native_ir = MetadataGenerator(str_types_registry=kw["str_registry"], dict_keys_regex=kw["dkr"],
                                       dict_keys_fields=kw["dkf"]).generate(*copy.deepcopy(concrete))
-        out.check(repr(oracles.canon_type(ir_sym)) == repr(oracles.canon_type(native_ir)), "ir_depends_on_leaf_values",
-                  lambda: f"IR on arbitrary leaves {oracles.canon_type(ir_sym)} != IR on representative leaves {oracles.canon_type(native_ir)} for {concrete}",
+        out.check(repr(oracles.canon_ir(ir_sym)) == repr(oracles.canon_ir(native_ir)), "ir_depends_on_leaf_values",
+                  lambda: f"IR on arbitrary leaves {oracles.canon_ir(ir_sym)} != IR on representative leaves {oracles.canon_ir(native_ir)} for {concrete}",
                   "ir_depends_on_leaf_values")
     return {"samples": concrete, "gen": gen, "reg": reg, "cfg": cfg}
 
@@ -164,7 +164,7 @@ def scen_accept(ch, params, out):
             out.check(ok, "emitted_rejects_sample",
                       lambda: f"[{fw}/{layout}] sample {i} {s} not accepted by emitted {root.name}: {why}\n{text}",
                       f"emitted_rejects_sample:{fw}")
-        if fw in ("pydantic", "sqlmodel") and cfg["registry"] != "datetime":
+        if fw in ("pydantic", "sqlmodel"):
             try:
                 pipeline.pydantic_resolve_all(ld)
                 for i, s in enumerate(samples):
@@ -185,6 +185,9 @@ def parts(tier):
             CH("triples", "vflib.props.c01:scen_accept",
                {"kinds": "KINDS_INTERACT", "samples": 3, "keys": ["a"], "frameworks": ["pydantic", "attrs"]},
                shards=16, timeout=170, path_timeout=30, mode="CH-P+CH-E"),
+            CH("datetime", "vflib.props.c01:scen_accept",
+               {"kinds": "KINDS_DATE", "samples": 2, "keys": ["a"], "registries": ["datetime"], "frameworks": ["pydantic", "dataclasses", "attrs"]},
+               shards=12, timeout=170, path_timeout=30, mode="CH-E"),
             CH("two_nested_fields", "vflib.props.c01:scen_accept",
                {"kinds": "KINDS_NEST", "samples": 1, "keys": ["a", "b"], "merge": ["default", "p50n2"]},
                shards=16, timeout=170, path_timeout=30, mode="CH-P+CH-E"),
